@@ -1,4 +1,5 @@
 import LdarModel.Lemmas.Sched
+import LdarModel.Lemmas.Crew
 /-
 C07 — no survey request is lost or duplicated; unfinished work keeps priority.
 
@@ -318,6 +319,202 @@ theorem C07_minutes (c : Cfg) (hc : c.sites.Nodup) (i : Nat) (ds : List DayIn) (
     · simp only [if_true]
       rw [← ((hm.1 hcp).2)]
       exact ih _ h'
+
+/-- a follow-up schedule with two sites -/
+def exFuDup : Cfg :=
+  { kind := .followup, crews := 1, cap := 1, sites := [1, 2], P := fun _ => { surveyTime := 600 } }
+
+/-! ### what `RunOK` assumes of the callers (F13) -/
+
+/-- `OpOK` without the callers' guarantee that a site is first-flagged only while it has no
+outstanding follow-up -/
+def OpOKweak : Op → Prop
+  | .day _ => True
+  | .add cls _ _ => cls = prioUnattended ∨ cls = prioNew
+  | .redetect _ _ cls => cls = 0 ∨ cls = prioUnattended ∨ cls = prioNew
+
+/-- without that guarantee the follow-up queue does hold two requests of one site: two screening
+methods that flag the same site into one follow-up schedule (known finding F13, recorded under C09)
+— `no_duplicates` for follow-up schedules is exactly as strong as `RunOK` -/
+theorem C07_followup_duplicate_counterexample :
+    ¬ (∀ (c : Cfg) (ops : List Op), c.sites.Nodup → (∀ o ∈ ops, OpOKweak o) → Outstanding (run c ops)) := by
+  intro h
+  have := (h exFuDup [.add 3 1 5, .add 3 1 4] (by decide)
+    (by intro o ho; simp at ho; rcases ho with rfl | rfl <;> simp [OpOKweak, prioNew])).1
+  revert this
+  decide +kernel
+
+/-! ### routine schedules: whatever waits is a new request -/
+
+/-- number of entries that are not in the default class -/
+def oldCount (l : List Entry) : Nat := (l.filter (fun e => e.cls ≠ prioNew)).length
+
+theorem oldCount_perm {l1 l2 : List Entry} (h : l1.Perm l2) : oldCount l1 = oldCount l2 :=
+  (h.filter _).length_eq
+
+theorem oldCount_append (l1 l2 : List Entry) : oldCount (l1 ++ l2) = oldCount l1 + oldCount l2 := by
+  unfold oldCount; rw [List.filter_append, List.length_append]
+
+/-- in a sorted queue holding at most `n` unfinished / unattended requests, everything behind the
+first `n` entries is a new request -/
+theorem drop_all_new (l : List Entry) (hs : l.Pairwise keyLt)
+    (hcls : ∀ e ∈ l, e.cls = prioUnfinished ∨ e.cls = prioUnattended ∨ e.cls = prioNew)
+    (n : Nat) (hn : oldCount l ≤ n) : ∀ e ∈ l.drop n, e.cls = prioNew := by
+  intro e he
+  apply Classical.byContradiction
+  intro hne
+  have hlen : n < l.length := by
+    apply Classical.byContradiction
+    intro h
+    rw [List.drop_eq_nil_of_le (by omega)] at he
+    simp at he
+  have hsplit := hs
+  rw [← List.take_append_drop n l, List.pairwise_append] at hsplit
+  have htake : ∀ x ∈ l.take n, x.cls ≠ prioNew := by
+    intro x hx hx3
+    have hlt := hsplit.2.2 x hx e he
+    have he' := hcls e (List.mem_of_mem_drop he)
+    unfold keyLt prioUnfinished prioUnattended prioNew at *
+    omega
+  have h1 : oldCount (l.take n) = n := by
+    unfold oldCount
+    rw [List.filter_eq_self.2 (by intro x hx; simpa using htake x hx), List.length_take]
+    omega
+  have h2 : 1 ≤ oldCount (l.drop n) := by
+    unfold oldCount
+    have : e ∈ (l.drop n).filter (fun e => e.cls ≠ prioNew) := by
+      rw [List.mem_filter]; exact ⟨he, by simpa using hne⟩
+    exact List.length_pos_of_mem this
+  have h3 : oldCount l = oldCount (l.take n) + oldCount (l.drop n) := by
+    rw [← oldCount_append, List.take_append_drop]
+  omega
+
+/-- invariant of routine histories: at most `crews × capacity` entries are not new requests -/
+theorem routine_old_bound (c : Cfg) (hc : c.sites.Nodup) (hk : c.kind = .routine) (ds : List DayIn) :
+    oldCount (runDays c ds).q.entries ≤ c.crews * c.cap ∧
+    ∀ d, ∀ e ∈ (waitingOf c d (runDays c ds)).entries, e.cls = prioNew := by
+  have hkf : c.kind ≠ .followup := by rw [hk]; decide
+  have step : ∀ (s : State) (d : DayIn), Inv s → RInv s → oldCount s.q.entries ≤ c.crews * c.cap →
+      (∀ e ∈ (waitingOf c d s).entries, e.cls = prioNew) ∧
+      oldCount (scheduleDay c d s).q.entries ≤ c.crews * c.cap := by
+    intro s d hi hr hb
+    have h1 := inv_request c hc d.date s hi
+    have hr1 := rinv_request c d.date s hi hr
+    -- the request phase only adds new requests
+    have hb1 : oldCount (requestPhase c d.date s).q.entries ≤ c.crews * c.cap := by
+      have hspec := putAll_spec s.q hi.qwf ((issued c d.date s).map (fun i => (prioNew, (0 : Int), i)))
+      have hq1 : (requestPhase c d.date s).q =
+          putAll s.q ((issued c d.date s).map (fun i => (prioNew, (0 : Int), i))) := by
+        unfold requestPhase; simp only [foldl_issue_eq]
+      rw [hq1, oldCount_perm hspec.2.1, oldCount_append]
+      have : oldCount (stamp s.q.next ((issued c d.date s).map (fun i => (prioNew, (0 : Int), i)))) = 0 := by
+        unfold oldCount
+        rw [List.length_eq_zero_iff, List.filter_eq_nil_iff]
+        intro e he
+        have hit := stamp_item _ _ e he
+        simp only [List.mem_map] at hit
+        obtain ⟨i, _, hieq⟩ := hit
+        have : e.cls = prioNew := by injection hieq with a b; exact a.symm
+        simp [this]
+      omega
+    have hwait : ∀ e ∈ (waitingOf c d s).entries, e.cls = prioNew := by
+      unfold waitingOf
+      rw [dayTrace_remaining]
+      unfold waiting
+      simp only [takeCount, hk]
+      exact drop_all_new _ h1.qwf.1 (fun e he => (hr1 e he).2.2) _ hb1
+    refine ⟨hwait, ?_⟩
+    obtain ⟨news, hperm, hsites, _, _, _⟩ := (dayOK_of_inv c hc s hi d).fifo
+    rw [oldCount_perm hperm, oldCount_append]
+    have hw0 : oldCount (waitingOf c d s).entries = 0 := by
+      unfold oldCount
+      rw [List.length_eq_zero_iff, List.filter_eq_nil_iff]
+      intro e he; simp [hwait e he]
+    have hnews : oldCount news ≤ news.length := List.length_filter_le _ _
+    have hlen : news.length ≤ c.crews * c.cap := by
+      have h2 : news.length = (requeuedOf c d s).length := by rw [← hsites, List.length_map]
+      have h3 : (requeuedOf c d s).length ≤ (planOf c d s).length := List.length_filter_le _ _
+      have h4 : (planOf c d s).length ≤ c.crews * c.cap := by
+        rw [← (dayOK_of_inv c hc s hi d).plan_is_taken, List.length_map, dayTrace_taken]
+        simp only [takeCount, hk, List.length_take]
+        omega
+      omega
+    omega
+  have hrun : ∀ (ds : List DayIn) (s : State), Inv s → RInv s → oldCount s.q.entries ≤ c.crews * c.cap →
+      let s' := ds.foldl (fun s d => scheduleDay c d s) s
+      Inv s' ∧ RInv s' ∧ oldCount s'.q.entries ≤ c.crews * c.cap := by
+    intro ds
+    induction ds with
+    | nil => intro s a b c'; exact ⟨a, b, c'⟩
+    | cons d ds ih =>
+      intro s a b c'
+      simp only [List.foldl_cons]
+      refine ih _ (inv_scheduleDay c hc d s a) ?_ (step s d a b c').2
+      rw [scheduleDay_eq]
+      exact rinv_finishDay c hkf d _ (inv_request c hc d.date s a) (rinv_request c d.date s a b)
+  have hfin := hrun ds init inv_init rinv_init (by simp [oldCount, init])
+  exact ⟨hfin.2.2, fun d => (step _ d hfin.1 hfin.2.1 hfin.2.2).1⟩
+
+/-- **order stability across days (routine)**: a request that waits (is not taken) is always a new
+request, so unfinished and unattended requests are taken on the very next day and two waiting
+requests never change their relative order -/
+theorem C07_routine_waiting_is_new (c : Cfg) (hc : c.sites.Nodup) (hk : c.kind = .routine)
+    (ds : List DayIn) (d : DayIn) :
+    ∀ e ∈ (waitingOf c d (runDays c ds)).entries, e.cls = prioNew :=
+  (routine_old_bound c hc hk ds).2 d
+
+/-! ### the crew arithmetic behind the outcomes (refinement of `Model/Crew.lean`) -/
+
+/-- the schedule-level outcome of one `survey_site` call of the crew model -/
+def outcomeOfStep (o : Crew.StepOut) : Outcome :=
+  match o.branch with
+  | .complete => .completed
+  | .partial_ => .progressed o.today
+  | _ => .untouched
+
+/-- the fields of the crew model's report that the schedule model keeps -/
+def crewReport (r : Report) : Crew.Report :=
+  { surveyed := r.surveyed, complete := r.complete, inProgress := r.inProgress }
+
+/-- **refinement**: feeding the schedule model the outcome computed by the crew model's `surveyStep`
+(any remaining minutes `R`, travel time `T`, weather) leaves exactly the report `applyStep` leaves
+(minutes, complete, in progress), and the day's minutes are the step's `today` -/
+theorem applyOutcome_refines_step (p : PlannerP) (ps : PlannerS) (R S T : Int) (st w : Bool)
+    (hS : p.surveyTime = Crew.effS st S) :
+    ∃ rep', (applyOutcome p (outcomeOfStep (Crew.surveyStep R S T (ps.rep.getD {}).surveyed st w)) ps).rep = some rep' ∧
+      crewReport rep' = { Crew.applyStep (crewReport (ps.rep.getD {}))
+                            (Crew.surveyStep R S T (ps.rep.getD {}).surveyed st w) with today := 0, travel := 0 } ∧
+      minutesToday p (outcomeOfStep (Crew.surveyStep R S T (ps.rep.getD {}).surveyed st w)) ps
+        = (Crew.surveyStep R S T (ps.rep.getD {}).surveyed st w).today := by
+  generalize hr0 : ps.rep.getD {} = r
+  unfold Crew.surveyStep
+  by_cases hw : w = true
+  · subst hw
+    simp only [Bool.not_true, Bool.false_eq_true, if_false]
+    split
+    · refine ⟨_, rfl, ?_, ?_⟩ <;> simp [outcomeOfStep, applyOutcome, minutesToday, crewReport, Crew.applyStep, hS, hr0]
+    · split
+      · refine ⟨_, rfl, ?_, ?_⟩ <;>
+          simp [outcomeOfStep, applyOutcome, minutesToday, crewReport, Crew.applyStep, hr0]
+      · refine ⟨_, rfl, ?_, ?_⟩ <;>
+          simp [outcomeOfStep, applyOutcome, minutesToday, crewReport, Crew.applyStep, hr0]
+  · have : w = false := by cases w <;> simp_all
+    subst this
+    simp only [Bool.not_false, if_true]
+    refine ⟨_, rfl, ?_, ?_⟩ <;> simp [outcomeOfStep, applyOutcome, minutesToday, crewReport, Crew.applyStep, hr0]
+
+/-- **minutes add up, with the crew arithmetic** (`Lemmas/Crew.lean`, re-stated here so that it is
+audited under C07): over the days of one survey — any crew minutes left, travel times, weather,
+crew shortage — the daily minutes sum to the report's minutes; at completion that is the survey
+time; while in progress `0 < P < S`; before the first visit `P = 0` -/
+theorem minutes_add_up_crew (stationary : Bool) (S : Int) (hS : 0 ≤ S) (days : List Crew.DayIn)
+    (hd : ∀ d ∈ days, 0 ≤ d.R ∧ 0 ≤ d.T) :
+    let r := Crew.surveyRun stationary S days {} 0
+    r.2 = r.1.surveyed ∧
+    (r.1.complete = true → r.2 = Crew.effS stationary S) ∧
+    (r.1.complete = false → r.1.inProgress = true → 0 < r.1.surveyed ∧ r.1.surveyed < S) ∧
+    (r.1.complete = false → r.1.inProgress = false → r.1.surveyed = 0) :=
+  Crew.minutes_add_up_fresh stationary S hS days hd
 
 /-! ### the names used in DESIGN.md 5.7 / Appendix E -/
 
